@@ -2,9 +2,12 @@
 (* Exhaustive / export model for C12.  Layer grid LP[l] = 2(n-l)+2 (decades):    *)
 (* nodes may sit on, between, below and above the layers.                        *)
 EXTENDS Temperature, SequencesExt
-CONSTANTS NMin, NMax, TVals, SWs, MaxNodes, Limits, Kinds, Rule, RodVariant, Export
-VARIABLES phase, kind, n, tn, pn, sw, lim, arr, pmode, K, hinv, gp, out
-vars == <<phase, kind, n, tn, pn, sw, lim, arr, pmode, K, hinv, gp, out>>
+CONSTANTS NMin, NMax, TVals, SWs, MaxNodes, Limits, Kinds, Rule, RodVariant, Export,
+          SignedNodes  \* "no": node pressures are positive;  "any": an intermediate node pressure is any real number,
+                       \* P = sign * 10^pn, sign \in {-1, 0, 1};  "some": at least one of them is zero or negative
+VARIABLES phase, kind, n, tn, pn, sg, sw, lim, arr, pmode, K, hinv, gp, out
+vars == <<phase, kind, n, tn, pn, sg, sw, lim, arr, pmode, K, hinv, gp, out>>
+Signs == IF SignedNodes = "no" THEN {1} ELSE {-1, 0, 1}
 
 LPOf(k) == [l \in 1..k |-> 2 * (k - l) + 2]
 Nil == [st |-> "none", prof |-> <<>>]
@@ -14,31 +17,36 @@ EndNodes(k) == {<<2 * k, 2>>, <<2 * k - 1, 3>>, <<2 * k + 1, 1>>}
 IncSeqs(k) == {s \in [1..k -> 0..4] : s[1] = 0 /\ \A i \in 1..(k - 1) : s[i + 1] - s[i] \in {1, 2}}
 PpOf(m, k) == [i \in 1..m |-> 2 * k + 1 - 2 * i]
 Alphas == {R(a - 1, 2) : a \in 0..4}
-Quiet == /\ tn = <<>> /\ pn = <<>> /\ sw = 0 /\ lim = 0 /\ arr = <<>> /\ pmode = "none"
+Quiet == /\ tn = <<>> /\ pn = <<>> /\ sg = <<>> /\ sw = 0 /\ lim = 0 /\ arr = <<>> /\ pmode = "none"
          /\ K = <<>> /\ hinv = 0 /\ gp = NoG
 
 InitIso == /\ kind = "iso" /\ n \in NMin..NMax /\ arr \in [1..1 -> TVals]
-           /\ tn = <<>> /\ pn = <<>> /\ sw = 0 /\ lim = 0 /\ pmode = "none" /\ K = <<>> /\ hinv = 0 /\ gp = NoG
+           /\ tn = <<>> /\ pn = <<>> /\ sg = <<>> /\ sw = 0 /\ lim = 0 /\ pmode = "none" /\ K = <<>> /\ hinv = 0 /\ gp = NoG
 InitNPoint ==
     /\ kind = "npoint" /\ n \in NMin..NMax
     /\ \E k \in 0..MaxNodes : \E ends \in EndNodes(n) :
           /\ tn \in [1..(k + 2) -> TVals]
           /\ \E mid \in [1..k -> 0..(2 * n + 2)] : pn = <<ends[1]>> \o mid \o <<ends[2]>>
+          \* the end nodes are positive (a negative P_surface / P_top is documented to mean "take it from the
+          \* grid"); an intermediate node is any real number; the magnitude of a zero is normalised to 10^0
+          /\ \E ms \in [1..k -> Signs] : sg = <<1>> \o ms \o <<1>>
+          /\ \A i \in 1..(k + 2) : sg[i] = 0 => pn[i] = 0
+          /\ SignedNodes = "some" => ~AllPositive(sg)
     /\ sw \in SWs /\ lim \in Limits
     /\ arr = <<>> /\ pmode = "none" /\ K = <<>> /\ hinv = 0 /\ gp = NoG
 InitArray ==
     /\ kind = "array" /\ n \in NMin..NMax
     /\ arr \in SeqsOf(TVals, 1, 3) /\ pmode \in {"none", "pp"}
     /\ (pmode = "pp" => Len(arr) >= 2 /\ Len(arr) <= n)
-    /\ tn = <<>> /\ pn = <<>> /\ sw = 0 /\ lim = 0 /\ K = <<>> /\ hinv = 0 /\ gp = NoG
+    /\ tn = <<>> /\ pn = <<>> /\ sg = <<>> /\ sw = 0 /\ lim = 0 /\ K = <<>> /\ hinv = 0 /\ gp = NoG
 InitRodgers ==
     /\ kind = "rodgers" /\ n \in 2..3
     /\ K \in IncSeqs(n) /\ arr \in [1..n -> TVals] /\ hinv \in {1, 2}
-    /\ tn = <<>> /\ pn = <<>> /\ sw = 0 /\ lim = 0 /\ pmode = "none" /\ gp = NoG
+    /\ tn = <<>> /\ pn = <<>> /\ sg = <<>> /\ sw = 0 /\ lim = 0 /\ pmode = "none" /\ gp = NoG
 InitGuillot ==
     /\ kind = "guillot" /\ n = 2
     /\ gp \in [tint : {-1, 0, 1}, tirr : {-1, 0, 2}, kir : {-1, 0, 1}, kv1 : {-1, 0, 1}, kv2 : {-1, 0, 2}, alpha : Alphas]
-    /\ tn = <<>> /\ pn = <<>> /\ sw = 0 /\ lim = 0 /\ arr = <<>> /\ pmode = "none" /\ K = <<>> /\ hinv = 0
+    /\ tn = <<>> /\ pn = <<>> /\ sg = <<>> /\ sw = 0 /\ lim = 0 /\ arr = <<>> /\ pmode = "none" /\ K = <<>> /\ hinv = 0
 Init == /\ phase = "in" /\ out = Nil
         /\ \/ ("iso" \in Kinds /\ InitIso)
            \/ ("npoint" \in Kinds /\ InitNPoint)
@@ -63,7 +71,11 @@ Wrap(p) == IF p = Fail THEN [st |-> "fail", prof |-> <<>>] ELSE [st |-> "ok", pr
 Limit == <<lim, 1>>
 Evaluate ==
     CASE kind = "iso" -> Wrap([l \in 1..n |-> Q(arr[1])])
-      [] kind = "npoint" -> IF NPointInvalid(tn, pn, Limit) THEN [st |-> "invalid", prof |-> <<>>]
+      [] kind = "npoint" -> IF Rule = "npoint_logorder"
+                            THEN (IF NPointRejectedLogOrder(tn, pn, sg, Limit) THEN [st |-> "invalid", prof |-> <<>>]
+                                  ELSE IF ~AllPositive(sg) THEN [st |-> "nan", prof |-> <<>>]
+                                  ELSE Wrap(NPointProfile(tn, pn, LPOf(n), sw, "spec")))
+                            ELSE IF NPointInvalidS(tn, pn, sg, Limit) THEN [st |-> "invalid", prof |-> <<>>]
                             ELSE Wrap(NPointProfile(tn, pn, LPOf(n), sw, Rule))
       [] kind = "array" -> IF pmode = "none" THEN Wrap(ArrayByFraction(arr, n))
                            ELSE Wrap(ArrayByPressure(arr, PpOf(Len(arr), n), LPOf(n)))
@@ -72,7 +84,7 @@ Evaluate ==
 Eval == /\ phase = "in"
         /\ out' = Evaluate
         /\ phase' = "done"
-        /\ UNCHANGED <<kind, n, tn, pn, sw, lim, arr, pmode, K, hinv, gp>>
+        /\ UNCHANGED <<kind, n, tn, pn, sg, sw, lim, arr, pmode, K, hinv, gp>>
 Next == Eval
 Spec == Init /\ [][Next]_vars
 
@@ -89,16 +101,23 @@ OnlyDocumentedRejections == (Done /\ kind \in {"iso", "array", "rodgers"}) => ou
 PositiveFinite == Ok => \A l \in 1..Len(out.prof) : RLt(RZero, out.prof[l])
 WithinControlRange == (Ok /\ Bounded) => SeqWithin(out.prof, Q(CLo), Q(CHi))
 ConstantWhenControlsEqual == (Ok /\ Bounded /\ CLo = CHi) => SeqConst(out.prof, Q(CLo))
-NPointRejectedIff == (Done /\ kind = "npoint") => ((out.st = "invalid") <=> NPointInvalid(tn, pn, Limit))
+NPointRejectedIff == (Done /\ kind = "npoint") => ((out.st = "invalid") <=> NPointInvalidS(tn, pn, sg, Limit))
+\* with positive end nodes a non-positive intermediate node is always a strict inversion of the PRESSURES
+\* (it lies below the top node): rejecting it is the "inverted pressure nodes" clause, under every reading
+NonPositiveNodeIsInverted == (kind = "npoint" /\ ~AllPositive(sg)) => \E i \in 1..(Len(pn) - 1) : RawLt(pn, sg, i, i + 1)
+\* on positive nodes the signed operators are the old ones
+SignedAgreesOnPositive == (kind = "npoint" /\ AllPositive(sg)) =>
+    /\ NPointInvalidS(tn, pn, sg, Limit) <=> NPointInvalid(tn, pn, Limit)
+    /\ NPointStrictlyInvalidS(tn, pn, sg, Limit) <=> NPointStrictlyInvalid(tn, pn, Limit)
 GuillotListedRejected == (Done /\ kind = "guillot" /\ GuillotListed(gp)) => out.st = "invalid"
 GuillotPhysicalAccepted == (Done /\ kind = "guillot" /\ GuillotPhysical(gp)) => out.st = "ok"
-StrictImpliesInvalid == (Done /\ kind = "npoint" /\ NPointStrictlyInvalid(tn, pn, Limit)) => out.st = "invalid"
+StrictImpliesInvalid == (Done /\ kind = "npoint" /\ NPointStrictlyInvalidS(tn, pn, sg, Limit)) => out.st = "invalid"
 FitsInv == Ok => SeqFits(out.prof)
 
 Emit == (Export /\ Done /\ kind # "guillot") =>
-    PrintT(<<"VEC", ToJson([kind |-> kind, n |-> n, lp |-> LPOf(n), tn |-> tn, pn |-> pn, sw |-> sw, lim |-> lim,
+    PrintT(<<"VEC", ToJson([kind |-> kind, n |-> n, lp |-> LPOf(n), tn |-> tn, pn |-> pn, sg |-> sg, sw |-> sw, lim |-> lim,
                             arr |-> arr, pmode |-> pmode, pp |-> IF pmode = "pp" THEN PpOf(Len(arr), n) ELSE <<>>,
                             K |-> K, hinv |-> hinv, st |-> out.st,
-                            strict |-> (kind = "npoint" /\ NPointStrictlyInvalid(tn, pn, Limit)), prof |-> out.prof,
+                            strict |-> (kind = "npoint" /\ NPointStrictlyInvalidS(tn, pn, sg, Limit)), prof |-> out.prof,
                             lo |-> CLo, hi |-> CHi])>>)
 =============================================================================
